@@ -57,7 +57,7 @@ def main():
     ap.add_argument("names", nargs="*")
     ap.add_argument("--jobs", type=int, default=2)
     a = ap.parse_args()
-    names = a.names or sorted(os.listdir(os.path.join(VERIF, "seeded")))
+    names = a.names or sorted(n for n in os.listdir(os.path.join(VERIF, "seeded")) if os.path.isdir(os.path.join(VERIF, "seeded", n)))
     sh(["git", "-C", "/repo", "worktree", "prune"])
     with ThreadPoolExecutor(a.jobs) as ex:
         for name, res in ex.map(one, names):
